@@ -25,7 +25,11 @@ CONSTANTS FAdd(_, _), FSub(_, _), FMul(_, _), FNeg(_), FInv(_), FInt(_),
           ScalarBits,   \* bit length of the embedded curve's subgroup order (252)
           OrderM1,      \* subgroup order - 1, as a field element
           OrderBits,    \* little-endian bits of the subgroup order
-          EightInvBits  \* little-endian bits of 8^-1 modulo the subgroup order
+          EightInvBits, \* little-endian bits of 8^-1 modulo the subgroup order
+          AdvMode       \* "honest": the implementation's witness generation;
+                        \* "closing-first": an adversarial generator for the range gadget
+                        \* that satisfies the closing equalities and lets the digit
+                        \* constraints absorb the overflow (used to derive override maps)
 
 Zero == FInt(0)
 One == FInt(1)
@@ -168,7 +172,8 @@ RangeCheckEven(st, w, bits) ==
     LET ng == (bits \div 8) + (IF bits % 8 # 0 THEN 1 ELSE 0)
         nq == ng * 4
         pad == 1 + (((nq * 2) - bits) \div 2)
-        r == RangeAccs(st, V(st, w), bits \div 2, Zero, << >>)
+        r == RangeAccs(st, V(st, w), bits \div 2,
+                       IF AdvMode = "closing-first" THEN FShr(V(st, w), bits) ELSE Zero, << >>)
         acc(i) == r.ws[i - pad + 1]                       \* i \in pad..nq
         \* slot i sits in gate (i div 4), wire D,C,B,A for i mod 4 = 0,1,2,3
         wire(g, m) == LET i == 4 * g + m IN IF i >= pad /\ i <= nq THEN acc(i) ELSE ZERO
@@ -184,7 +189,9 @@ RangeCheck(st, w, bits) ==
   ELSE
     LET top == bits - 1
         x == V(st, w)
-        s1 == Alloc(st, FLow(x, top))
+        s1 == Alloc(st, IF AdvMode = "closing-first"
+                        THEN FSub(x, FMul(FInt(FBit(x, top)), FPow2(top)))   \* x with bit `top` cleared
+                        ELSE FLow(x, top))
         lower == Last(s1)
         s2 == RangeCheckEven(s1, lower, top)
         s3 == Alloc(s2, FInt(FBit(x, top)))
